@@ -381,15 +381,15 @@ def precedence(chk, sf, dprog, cfg):
     chk.expect(rec is not None and rec["keys"] == {"index"} and rec["ns"] == {"codec"} and "NameValue" in rec["metas"], "R3.3", "scale-info-derive:maybe_index",
                "derive/src/utils.rs", "recognises %s" % (rec,), cfg)
     # template: .index(#index as ::core::primitive::u8)
-    c = sf.fn("derive", "generate_variant_type")
     okt = False
-    if len(c) == 1:
+    if True:      # (whatever the emitting function is called)
         fns_ = [it for f_ in sf.files("derive") if f_["file"] == "lib.rs" for it in f_["items"] if it["kind"] in ("fn", "impl")]
         bodies_ = [it["body"] for it in fns_ if it["kind"] == "fn"] + [ii["body"] for it in fns_ if it["kind"] == "impl" for ii in it.get("items", []) if ii.get("kind") == "fn" and "body" in ii]
         toks = " ".join(m["tokens"] for bd_ in bodies_ for m in bd_.get("macros", []) if m["path"].endswith("quote"))
-        okt = re.search(r"\. index \(# index as :: core :: primitive :: u8\)", toks) is not None
+        m_ = re.search(r"\. index \(# (\w+) as :: core :: primitive :: u8\)", toks)
+        okt = m_ is not None
         c = [(None, {"body": {"src": " ".join(bd_.get("src", "") for bd_ in bodies_)}})]
-        okt = okt and re.search(r"\bindex = utils :: variant_index \(", c[0][1]["body"]["src"]) is not None
+        okt = okt and re.search(r"\b%s = utils :: variant_index \(" % re.escape(m_.group(1)), c[0][1]["body"]["src"]) is not None
     chk.expect(okt, "R3.3", "scale-info-derive:index-emitted-as-u8", "derive/src/lib.rs", "template contains `.index(#index as ::core::primitive::u8)` fed by variant_index(v, i): %s" % okt, cfg)
     # codec side
     c = sf.fn("codec_derive", "variant_index")
